@@ -50,12 +50,16 @@ def make(rng):
                                                     ('send_ping', ('b', b'')), ('close', 1001, ('b', b'again'))]))
     sc.reactions = rx
     sc.server_close = sclose is not None       # the (valid) stream contains a server Close
+    exp_msgs = []
+    for it in pre + mid:
+        exp_msgs += it.expected()
+    sc.meta = dict(expected=exp_msgs, sclose=None if sclose is None else ['N' if sclose.code is None else str(sclose.code), sclose.reason.hex()])
     sc.ctimeout = rng.choice([30, 30, 30, 0, 0, 5])
     sc.zero = rng.random() < 0.5           # a disabled close timeout given as 0 rather than None
     return sc
 
 
-def judge(res, js, line, real, server_close=False):
+def judge(res, js, line, real, server_close=False, calls=(), meta=None):
     tk = toks(real)
     def fail(msg, cls='close-handshake'):
         res.failures.append(dict(cls=cls, what=msg, input=line[-1800:], scenario=js, observed=[t[:70] for t in tk[-10:]]))
@@ -83,6 +87,52 @@ def judge(res, js, line, real, server_close=False):
                 if tk[i] == 'R:ok' and tk[i - 1].startswith(('W:', 'Z:')):
                     return fail('a send after the Close frame was accepted', 'send-after-close')
     names = [t for t in tk if t.startswith('E:')]
+    # ---- per call: the application's own close() and what is allowed after it
+    def reason_bytes(r):
+        return bytes.fromhex(r[1]) if r[0] == 'b' else ''.join(chr(c) for c in r[1]).encode('utf-8', 'replace')
+    acts = [a for k in sorted(js['reactions'], key=int) for a in js['reactions'][k]]
+    client_close_at = None
+    ai = 0
+    for pos, kind, result, wire in calls:
+        act = acts[ai] if ai < len(acts) else None
+        ai += 1
+        before = tk[:pos]
+        up = any(t.startswith('E:connected') for t in before) and not any(t.startswith(('E:disconnected', 'E:closing', 'E:closed', 'E:rejected', 'E:protocol_error')) for t in before)
+        if kind == 'close' and client_close_at is None and up and result == 'ok' and act is not None and act[0] == 'close':
+            code, reason = act[1], act[2]
+            want = b'' if code is None else struct.pack('!H', code) + reason_bytes(reason)
+            got = []
+            for w in wire:
+                if w.startswith('W:'):
+                    try:
+                        got += decode_client_frames(bytes.fromhex(w[2:]))
+                    except Exception:  # noqa
+                        got.append(dict(opcode=-1, payload=b''))
+                else:
+                    got.append(dict(opcode=-2, payload=b''))
+            if len(got) != 1 or got[0]['opcode'] != 8 or got[0]['payload'] != want:
+                return fail('close(%r, %r) on an open connection returned normally but wrote %s instead of exactly one Close frame carrying the given code and reason'
+                            % (code, reason_bytes(reason)[:20], [(g['opcode'], bytes(g['payload'])[:12]) for g in got]), 'close-frame-content')
+            client_close_at = pos
+            continue
+        if client_close_at is not None and kind in ('send_text', 'send_binary', 'send_ping', 'send_pong', 'send_json'):
+            if wire:
+                return fail('%s after the client\'s Close frame wrote to the socket' % kind, 'send-after-close')
+            if not result.startswith(('WebSocket', 'TransportFail')):
+                return fail('%s after the client\'s Close frame returned %s instead of raising a WebSocketError' % (kind, result), 'send-after-close')
+    # ---- incoming messages keep being delivered (before, between and after the application's close(), up to the server's Close)
+    if meta is not None and any(t.startswith('E:ready') for t in tk):
+        cutpos = next((i for i, t in enumerate(tk) if t.startswith(('E:closing', 'E:closed'))), len(tk))
+        msgs = [t for t in tk[:cutpos] if t.split(':')[0] == 'E' and t.split(':')[1] in ('text', 'binary', 'ping', 'pong')]
+        want = meta['expected']
+        if msgs[:len(want)] != want and not any(t.startswith('E:disconnected:close-timeout') for t in tk):
+            k = next((i for i, (a, b) in enumerate(zip(msgs, want)) if a != b), min(len(msgs), len(want)))
+            return fail('messages of the (valid) stream were not all delivered in order: first difference at index %d (%s instead of %s)' % (k, (msgs[k:k + 1] or ['nothing'])[0][:60], want[k][:60]), 'delivery-while-closing')
+        # the server's Close is reported with ITS code and reason
+        if meta['sclose'] is not None:
+            rep = next((t for t in tk if t.startswith(('E:closing:', 'E:closed:'))), None)
+            if rep is not None and rep.split(':')[2:4] != meta['sclose']:
+                return fail('the server\'s Close(%s, %s) was reported as %s' % (meta['sclose'][0], meta['sclose'][1][:20], rep[:60]), 'close-code-reported')
     # the stream is valid and contains a Close from the server: it must surface as Closing (server first) or Closed (client first)
     if server_close and any(t.startswith('E:ready') for t in tk) and not any(t.startswith(('E:closing:', 'E:closed:')) for t in tk):
         if not any(t.startswith('WF:') for t in tk) and not any(t.startswith('E:disconnected:close-timeout') for t in tk):
@@ -141,14 +191,15 @@ def explore(res, tier, seed, model_ok=True):
                 'non-trivial = history containing a close() call or a server Close; distinct by operation line') % n
     scs = [make(rng) for _ in range(n)]
     pairs = coreutil.run_pairs(scs, model_ok)
-    for (js, line, real, model), sc in zip(pairs, scs):
+    callrecs = runner.parallel_map('coreutil', 'real_one_calls', [p[0] for p in pairs])
+    for (js, line, real, model), sc, cr in zip(pairs, scs, callrecs):
         if isinstance(real, dict):
             res.crashes.append(real); continue
         res.case(line, nontrivial=('cl=' in line or 'E:closing' in real))
         for k in ('E:closing', 'E:closed', 'R:WebSocketClosing', 'R:WebSocketClosed'):
             if k in real:
                 res.count(k)
-        judge(res, js, line, real, sc.server_close)
+        judge(res, js, line, real, sc.server_close, cr.get('calls', []) if isinstance(cr, dict) and cr.get('trace') == real else [], sc.meta)
     coreutil.check_corr(res, pairs)
     res.samples += [pairs[0][1][-300:], pairs[1][1][-300:]]
 
